@@ -316,6 +316,95 @@ def run_scripts(scripts, servertype):
     return traces
 
 
+class Yielder(object):
+    """travels through a registered converter that gives other threads a turn in the middle of writing a message"""
+    def __init__(self, n):
+        self.n = n
+
+
+def concurrent_calls(rounds, seed):
+    """two clients call at the same time (thread-pool server); each reply is written while the other one is half written (the
+    conversion of part of the result gives way to the other thread).  Every call must still return its own result."""
+    import Pyro5.api as P
+    from Pyro5 import config, errors, serializers
+
+    def to_dict(o):
+        S.CUR.yield_point()
+        return {"__class__": "harness.c03.Yielder", "n": o.n}
+    serializers.SerializerBase.register_class_to_dict(Yielder, to_dict)
+    serializers.SerializerBase.register_dict_to_class("harness.c03.Yielder", lambda cn, d: d["n"])
+    config.SERVERTYPE = "thread"
+    config.THREADPOOL_SIZE = 6
+    config.THREADPOOL_SIZE_MIN = 2
+    config.COMMTIMEOUT = 0.0
+    traces = []
+
+    def main():
+        sc = S.CUR
+        execs = {1: {}, 2: {}}
+
+        @P.expose
+        class Target(object):
+            def call(self, who, tok):
+                execs[who][tok] = execs[who].get(tok, 0) + 1
+                return [Yielder(who), {"own": who * 1000 + tok}, Yielder(tok)]
+        d = P.Daemon(host="127.0.0.1")
+        uri = d.register(Target(), "target")
+        drv = memnet.ServerDriver(d)
+        done = [0]
+        per = {1: [], 2: []}
+
+        def client(who):
+            def body():
+                try:
+                    for sername in sorted(serializers.serializers):
+                        if sername == "marshal":
+                            continue        # (marshal converts foreign objects at the top of a result only)
+                        p = P.Proxy(uri)
+                        p._pyroSerializer = sername
+                        tr = [{"e": "cfg", "retries": 0, "seq0": 0}]
+                        n0 = len(execs[who])
+                        for i in range(rounds):
+                            tok = len(tr)
+                            try:
+                                r = p.call(who, n0 + tok)
+                                own = r[1].get("own") if isinstance(r, (list, tuple)) and len(r) == 3 and isinstance(r[1], dict) else None
+                                ok = own == who * 1000 + n0 + tok and r[0] == who and r[2] == n0 + tok
+                                tr.append({"e": "call", "tok": tok, "kind": "normal", "fault": "none", "outcome": "ret", "val": tok if ok else -1,
+                                           "pre": 0, "post": 0, "conn": 0})
+                            except (S.Hang, S.SchedAbort):
+                                raise
+                            except errors.CommunicationError:
+                                tr.append({"e": "call", "tok": tok, "kind": "normal", "fault": "none", "outcome": "comm", "val": 0, "pre": 0, "post": 0, "conn": 0})
+                            except Exception as x:
+                                tr.append({"e": "call", "tok": tok, "kind": "normal", "fault": "none", "outcome": "other", "val": 0, "pre": 0, "post": 0,
+                                           "conn": 0, "exc": type(x).__name__})
+                        p._pyroRelease()
+                        per[who].append((sername, n0, tr))
+                finally:
+                    done[0] += 1
+            return body
+        sc.spawn("cA", client(1), trace=False)
+        sc.spawn("cB", client(2), trace=False)
+        sc.yield_point(lambda: done[0] == 2)
+        sc.quiesce()
+        for who in (1, 2):
+            for sername, n0, tr in per[who]:
+                tr.append({"e": "end", "exec": [execs[who].get(n0 + k, 0) for k in range(1, len(tr))], "crashed": drv.crashed is not None})
+                traces.append((tr, {"script": [{"kind": "normal", "fault": "none", "sticky": False}] * (len(tr) - 2), "retries": 0, "seq0": 0,
+                                    "server": "thread", "concurrent": sername}))
+        drv.shutdown()
+        d.close()
+    try:
+        memnet.run(main, chooser=S.RandomChooser(random.Random(seed * 31 + 3)), max_steps=20000000)
+    finally:
+        serializers.SerializerBase.unregister_class_to_dict(Yielder)
+        serializers.SerializerBase.unregister_dict_to_class("harness.c03.Yielder")
+    if len(traces) < 6:
+        raise util.MachineryError("concurrent call pass incomplete (%d)" % len(traces))
+    return traces
+
+
 def run(ctx):
     memnet.install()
     ctx.rule = ("cases = (fault script from Gen_Call: sequence of (call kind, fault) steps) x MAX_RETRIES in {0,1,2} x start sequence number "
@@ -350,6 +439,9 @@ def run(ctx):
         sub = jobs[::7]
         traces += run_scripts(sub, "thread")
         metas += [{"script": j[0], "retries": j[1], "seq0": j[2], "server": "thread"} for j in sub]
+    for tr, m in concurrent_calls(ctx.pick(12, 60), ctx.seed):
+        traces.append(tr)
+        metas.append(m)
     for m in metas:
         faulty = any(s["fault"] != "none" for s in m["script"])
         ctx.count(json.dumps(m, sort_keys=True) if faulty else None)
